@@ -38,6 +38,7 @@ type c16Case struct {
 	Target      string   `json:"target,omitempty"`
 	Strict      bool     `json:"strict,omitempty"`
 	TinyTimeout bool     `json:"tinyTimeout,omitempty"` // --massive-timeout of microseconds: the run may legitimately time out
+	Inodes      int      `json:"inodes,omitempty"`      // mkdir: the working directory is a file system with room for Inodes-1 entries
 	Expired     bool     `json:"expired,omitempty"`     // --massive-timeout 1ns: the deadline has passed before the library is called (the command makes the context first, then opens and reads the input)
 }
 
@@ -62,8 +63,8 @@ func runCLI(c c16Case) cliResult {
 	cliSeq++
 	base := filepath.Join(scratch, fmt.Sprintf("cli.%d.%d", os.Getpid(), cliSeq))
 	os.RemoveAll(base)
-	defer os.RemoveAll(base)
-	if err := ops.MakeJail(base, &ops.FSSpec{Pre: c.Pre}); err != nil {
+	defer ops.ReleaseJail(base)
+	if err := ops.MakeJail(base, &ops.FSSpec{Pre: c.Pre, InodeLimit: c.Inodes}); err != nil {
 		return cliResult{infra: err.Error()}
 	}
 	target := filepath.Join(base, ops.JailTarget)
@@ -208,7 +209,7 @@ func c16Check(c c16Case) string {
 	// the library on the same input and an identical jail
 	cs := ops.NewCase("output", "md")
 	cs.Doc = c.Doc
-	cs.FS = &ops.FSSpec{Pre: c.Pre}
+	cs.FS = &ops.FSSpec{Pre: c.Pre, InodeLimit: c.Inodes}
 	cs.Opts.TargetOpt = "raw"
 	cs.Opts.TargetRaw = c.Target
 	switch c.Sub {
@@ -388,6 +389,9 @@ func c16Gen() *rapid.Generator[c16Case] {
 			}
 			if rapid.IntRange(0, 4).Draw(t, "preroot") == 0 && c.Target == "" {
 				c.Pre = []ops.FSEntry{{Path: f[0].Name, Kind: "d"}}
+			} else if !c.DryRun && !hostile && mountOK() && rapid.IntRange(0, 3).Draw(t, "fsFull") == 0 {
+				// the file system runs full at some creation: a mkdir failure, to be reported by the exit status
+				c.Inodes = 1 + rapid.IntRange(0, f.Count()+1).Draw(t, "room")
 			}
 		case "verify", "vf":
 			switch rapid.IntRange(0, 4).Draw(t, "strict") {
@@ -478,7 +482,10 @@ func c16Record(col *collector, c c16Case) {
 	if c.Massive {
 		cl = append(cl, "massive")
 	}
-	col.eval(c.Usage != "" || len(c.Args) > 0 || c.Stdout != "pipe" || c.Input == "missing" || c.Input == "dir", hash64(fmt.Sprint(c.Sub, c.Args, c.Input, c.Stdout, c.Pre), string(c.Doc)), cl...)
+	if c.Inodes > 0 {
+		cl = append(cl, "file-system-runs-full")
+	}
+	col.eval(c.Usage != "" || len(c.Args) > 0 || c.Stdout != "pipe" || c.Input == "missing" || c.Input == "dir", hash64(fmt.Sprint(c.Sub, c.Args, c.Input, c.Stdout, c.Pre, c.Inodes), string(c.Doc)), cl...)
 	col.sample(func() any {
 		return map[string]any{"argv": append([]string{c.Sub}, c.Args...), "input": c.Input, "stdout": c.Stdout, "doc": truncate(string(c.Doc), 150)}
 	})
